@@ -103,6 +103,14 @@ func init() {
 			tx("B send 1 BIP gas MAXED (both routes, reserve cheaper)", transaction.TypeSend, B, transaction.SendData{Coin: 0, To: A.Addr, Value: e18(1)}, CoinMaxed),
 			// the bought coin pays the fee through its pool (nothing is burnt from the curve): the supply bound is judged on the real volume
 			tx("B buy COINA exactly to max supply, gas COINA (fee through pool)", transaction.TypeBuyCoin, B, transaction.BuyCoinData{CoinToBuy: CoinCoinA, ValueToBuy: e18(1000000), CoinToSell: 0, MaximumValueToSell: huge}, CoinCoinA),
+			// ticker prices by length (3 letters is in the menu above, 7 too) and the shortest ticker
+			tx("B create coin ABCD(4)", transaction.TypeCreateCoin, B, cc("ABCD", e18(1000), e18(10000), 40, e18(100000)), 0),
+			tx("B create coin ABCDE(5)", transaction.TypeCreateCoin, B, cc("ABCDE", e18(1000), e18(10000), 40, e18(100000)), 0),
+			tx("B create coin ABCDEF(6)", transaction.TypeCreateCoin, B, cc("ABCDEF", e18(1000), e18(10000), 40, e18(100000)), 0),
+			tx("B create coin AB(2: too short)", transaction.TypeCreateCoin, B, cc("AB", e18(1000), e18(10000), 40, e18(100000)), 0),
+			// the minimum liquidity of a new pool: sqrt(v0*v1) must exceed the 1000 units that are locked for good
+			tx("A create pool COINA/MAXED 1000/1000 pip (liquidity = the locked minimum)", transaction.TypeCreateSwapPool, A, transaction.CreateSwapPoolData{Coin0: CoinCoinA, Coin1: CoinMaxed, Volume0: big.NewInt(1000), Volume1: big.NewInt(1000)}, 0),
+			tx("A create pool COINA/MAXED 1001/1001 pip (one unit above it)", transaction.TypeCreateSwapPool, A, transaction.CreateSwapPoolData{Coin0: CoinCoinA, Coin1: CoinMaxed, Volume0: big.NewInt(1001), Volume1: big.NewInt(1001)}, 0),
 			tx("B buy COINA to max supply+1pip, gas COINA (fee through pool)", transaction.TypeBuyCoin, B, transaction.BuyCoinData{CoinToBuy: CoinCoinA, ValueToBuy: pip("1000000000000000000000001"), CoinToSell: 0, MaximumValueToSell: huge}, CoinCoinA),
 		}
 		return w
